@@ -1,5 +1,5 @@
 (* Proofs/PluginsFsProofs.v — C27: crash safety of the staged Install and of AddRepository. *)
-From Octo Require Import Plugins PluginsProofs PluginsFs.
+From Octo Require Import Plugins PluginsProofs PluginsFs PluginsJson.
 From Coq Require Import Permutation.
 
 Local Arguments bytes_eqb : simpl never.
@@ -330,7 +330,8 @@ Record upgrade_ok (f0 : fs) (i : install) : Prop := {
   u_nostage : i_repo i <> staging_name;
   u_parse : parse_version (ver_name i) = Some (i_version i);
   u_tmp : forall ns, fs_get f0 ext_tmp <> Some (Dir ns);
-  u_ext : forall old, load_handlers f0 = Ok old -> json_decode (json_encode (merged_handlers old i)) <> None }.
+  u_name_safe : safe_str (i_name i) = true;
+  u_exts_safe : forallb safe_str (i_exts i) = true }.
 
 Definition phaseA (f0 : fs) (i : install) : list fs_op :=
   remove_all f0 S ++ mkdir_all S ++ [Create (S ++ [s_archive]); Write (S ++ [s_archive]) (i_archive i)]
@@ -728,7 +729,7 @@ Proof.
     + assert (OE : off_ext g' (crash (write_file ext_tmp (json_encode (merged_handlers old i)) ++ [Rename ext_tmp ext_path]) g' k' t)).
       { apply ext_phase.
         - intros ns. unfold g'. rewrite (ren_other f0 i fA VA ext_tmp); try reflexivity; try discriminate. apply (u_tmp _ _ U).
-        - apply (u_ext _ _ U old EL). }
+        - apply (handlers_decode f0 i old (u_name_safe _ _ U) (u_exts_safe _ _ U) EL). }
       apply NEW; [apply off_ext_startup; [exact OE|rewrite LH; reflexivity]|apply OE].
     + replace (crash [] g' k' t) with g' by (destruct k'; reflexivity). apply NEW; auto.
     + replace (crash [] g' k' t) with g' by (destruct k'; reflexivity). apply NEW; auto.
@@ -772,12 +773,13 @@ Theorem add_crash_safe : forall f0 a k t d,
   (fs_get f0 [s_repositories] = None \/ exists ns, fs_get f0 [s_repositories] = Some (Dir ns)) ->
   (forall q, under (repo_entry a) q = true -> q <> repo_entry a -> fs_get f0 q = None) ->
   (forall ns, fs_get f0 (repo_entry a) <> Some (Dir ns)) ->
-  json_decode (repo_data a) <> None ->
+  safe_str (r_url a) = true ->
   let f := crash (add_ops a) f0 k t in
   startup_db f d = startup_db f0 d /\ (forall v, binary_of f d v = binary_of f0 d v) /\
   (repos_ok f0 = true -> repos_ok f = true).
 Proof.
-  intros f0 a k t d Htmp Hdir Hbelow Hent Hdec f.
+  intros f0 a k t d Htmp Hdir Hbelow Hent Hsafe f.
+  pose proof (repo_data_decodes a Hsafe) as Hdec.
   (* after MkdirAll(repositories) *)
   set (g0 := apply_op f0 (Mkdir [s_repositories])).
   assert (G0 : forall q, q <> [s_repositories] -> q <> [] -> fs_get g0 q = fs_get f0 q).
@@ -951,10 +953,111 @@ Proof.
   - vm_compute. discriminate.
   - vm_compute. reflexivity.
   - intros ns. vm_compute. discriminate.
-  - intros old H. vm_compute in H. inversion H; subst old. vm_compute. discriminate.
+  - reflexivity.
+  - reflexivity.
 Qed.
 
 Lemma install_witness_result :
   startup_db (crash (install_ops f0 inst200) f0 (length (install_ops f0 inst200)) 0) db = Ok (Some v200) /\
   binary_of (crash (install_ops f0 inst200) f0 (length (install_ops f0 inst200)) 0) db v200 = Some (File bin2).
 Proof. vm_compute. split; reflexivity. Qed.
+
+(* ---------------- the new binary is complete once the version directory is in place ---------------- *)
+Lemma run_frame : forall ops g q,
+  Forall (fun o => is_rename o = false /\ q <> subject o /\ q <> parent (subject o)) ops ->
+  fs_get (run_ops ops g) q = fs_get g q.
+Proof.
+  induction ops as [|o ops IH]; intros g q H; [reflexivity|]. inversion H as [|? ? (R & H1 & H2) H']; subst.
+  simpl. rewrite IH by exact H'. apply frame; assumption.
+Qed.
+
+Lemma run_app : forall a b g, run_ops (a ++ b) g = run_ops b (run_ops a g).
+Proof. intros. unfold run_ops. apply fold_left_app. Qed.
+
+Lemma Sn_parent : forall n, parent (S ++ [n]) = S. Proof. reflexivity. Qed.
+
+Lemma Sn_neq : forall n m, n <> m -> S ++ [n] <> S ++ [m].
+Proof. intros n m H E. apply app_inv_head in E. congruence. Qed.
+
+Ltac len_neq := let E := fresh "E" in intro E; apply (f_equal (@length bytes)) in E; simpl in E; discriminate.
+Ltac frame_list tac :=
+  repeat (apply Forall_cons; [split; [reflexivity|split; [simpl; first [len_neq | tac] | simpl; len_neq]]|]); apply Forall_nil.
+
+Lemma unarchive_members : forall members g,
+  NoDup (map fst members) ->
+  (forall n, In n (map fst members) -> fs_get g (S ++ [n]) = None) ->
+  forall n c, In (n, c) members -> fs_get (run_ops (unarchive_ops S members) g) (S ++ [n]) = Some (File c).
+Proof.
+  induction members as [|[m cm] t IH]; intros g ND Hfresh n c Hin; [destruct Hin|].
+  simpl in ND. inversion ND as [|? ? Hnot ND']; subst.
+  change (unarchive_ops S ((m, cm) :: t)) with ([Create (S ++ [m]); Write (S ++ [m]) cm] ++ unarchive_ops S t).
+  rewrite run_app.
+  set (g1 := run_ops [Create (S ++ [m]); Write (S ++ [m]) cm] g).
+  assert (Own : fs_get g1 (S ++ [m]) = Some (File cm)).
+  { unfold g1. change (run_ops [Create (S ++ [m]); Write (S ++ [m]) cm] g) with (apply_op (apply_op g (Create (S ++ [m]))) (Write (S ++ [m]) cm)).
+    set (gc := apply_op g (Create (S ++ [m]))).
+    assert (E : fs_get gc (S ++ [m]) = Some (File [])).
+    { unfold gc, apply_op. rewrite (Hfresh m) by (left; reflexivity).
+      rewrite get_add_name_other by (rewrite Sn_parent; intro E; apply (f_equal (@length bytes)) in E; simpl in E; discriminate).
+      apply get_set_same. }
+    unfold apply_op. rewrite E. apply get_set_same. }
+  assert (Others : forall x, x <> m -> fs_get g1 (S ++ [x]) = fs_get g (S ++ [x])).
+  { intros x Hx. unfold g1. apply run_frame. frame_list ltac:(apply Sn_neq; exact Hx). }
+  destruct Hin as [Hin|Hin].
+  - inversion Hin; subst n c. rewrite run_frame; [exact Own|].
+    unfold unarchive_ops. apply Forall_concat. apply Forall_forall. intros l Hl. apply in_map_iff in Hl. destruct Hl as ([x cx] & E & Hx). subst l. simpl.
+    assert (x <> m) by (intro; subst; apply Hnot; apply in_map_iff; exists (m, cx); auto).
+    frame_list ltac:(apply Sn_neq; congruence).
+  - apply IH; [exact ND'| |exact Hin].
+    intros x Hx. assert (x <> m) by (intro; subst; contradiction). rewrite Others by assumption. apply Hfresh. right. exact Hx.
+Qed.
+
+Theorem install_new_binary : forall f0 i k t c,
+  upgrade_ok f0 i ->
+  (forall q, under S q = true -> fs_get f0 q = None) ->
+  NoDup (map fst (i_members i)) -> ~ In s_archive (map fst (i_members i)) ->
+  In (dir_of (i_name i), c) (i_members i) ->
+  (length (phaseA f0 i) < k)%nat ->
+  fs_get (crash (install_ops f0 i) f0 k t) (N i ++ [dir_of (i_name i)]) = Some (File c).
+Proof.
+  intros f0 i k t c U Hclean ND Harch Hin Hk.
+  destruct (u_P _ _ U) as [ns0 HP].
+  pose proof (phaseA_keeps f0 i U) as KA.
+  pose proof (same_view_refl f0 ns0 HP) as V0.
+  set (fA := run_ops (phaseA f0 i) f0).
+  assert (VA : same_view f0 fA) by (apply run_keeps; assumption).
+  assert (O7 : remove_all fA (N i) = []) by (apply remove_all_nil; apply (fresh_after_A f0 i fA U VA)).
+  (* the staged binary *)
+  assert (ST : fs_get fA (S ++ [dir_of (i_name i)]) = Some (File c)).
+  { unfold fA, phaseA. rewrite (remove_all_nil f0 S Hclean). rewrite app_nil_l.
+    change (mkdir_all S) with [Mkdir P; Mkdir S].
+    rewrite !run_app.
+    set (g3 := run_ops [Create (S ++ [s_archive]); Write (S ++ [s_archive]) (i_archive i)] (run_ops [Mkdir P; Mkdir S] f0)).
+    assert (NM : forall n, In n (map fst (i_members i)) -> n <> s_archive) by (intros n Hn E; subst; contradiction).
+    assert (F3 : forall n, In n (map fst (i_members i)) -> fs_get g3 (S ++ [n]) = None).
+    { intros n Hn. unfold g3. rewrite <- run_app. rewrite run_frame; [apply Hclean; apply under_app|].
+      frame_list ltac:(apply Sn_neq; apply NM; exact Hn). }
+    rewrite run_frame.
+    - rewrite run_frame.
+      + apply unarchive_members; [exact ND|exact F3|exact Hin].
+      + assert (dir_of (i_name i) <> s_archive) by (apply NM; apply in_map_iff; exists (dir_of (i_name i), c); auto).
+        frame_list ltac:(apply Sn_neq; assumption).
+    - change (mkdir_all (parent (N i))) with [Mkdir P; Mkdir [s_plugins; i_repo i]; Mkdir (PD i)].
+      frame_list ltac:(intro E; inversion E; apply (u_nostage _ _ U); congruence). }
+  rewrite install_ops_split. fold fA. rewrite O7. simpl app.
+  rewrite crash_app_ge by lia. fold fA.
+  destruct (k - length (phaseA f0 i))%nat as [|k'] eqn:EK; [lia|].
+  simpl crash. change (run_ops [Rename S (N i)] fA) with (apply_op fA (Rename S (N i))).
+  set (g' := apply_op fA (Rename S (N i))).
+  assert (G : fs_get g' (N i ++ [dir_of (i_name i)]) = Some (File c)).
+  { unfold g'. rewrite (ren_target f0 i fA U) by discriminate. exact ST. }
+  destruct (startup_after_rename f0 i fA (mkDB [] [] [] None) U VA) as [LH _]. fold g' in LH.
+  unfold ext_ops. rewrite LH. destruct (load_handlers f0) as [old|e|s] eqn:EL.
+  - assert (OE : off_ext g' (crash (write_file ext_tmp (json_encode (merged_handlers old i)) ++ [Rename ext_tmp ext_path]) g' k' t)).
+    { apply ext_phase.
+      - intros ns. unfold g'. rewrite (ren_other f0 i fA VA ext_tmp); try reflexivity; try discriminate. apply (u_tmp _ _ U).
+      - apply (handlers_decode f0 i old (u_name_safe _ _ U) (u_exts_safe _ _ U) EL). }
+    destruct OE as [A _]. rewrite A; [exact G|reflexivity|reflexivity|discriminate].
+  - replace (crash [] g' k' t) with g' by (destruct k'; reflexivity). exact G.
+  - replace (crash [] g' k' t) with g' by (destruct k'; reflexivity). exact G.
+Qed.
